@@ -31,6 +31,11 @@ What is enumerated (exhaustively within the bound, no sampling):
               {writable, readonly} x {own write_<p> method, none}; run-1 configuration {nothing, everything} x EVERY subset
               of the four shapes configured in run 2 x configured value {differs from, equals} the stored one; observed
               right after construction and after writeInitParams().
+  reload      the stored file is damaged / removed / replaced behind the back of a RUNNING node that has saved its values
+              (every damage of the `corrupt` list), then every combination of [value change] loadParameters() / no
+              loadParameters() [value change {p by client, r by driver, q by driver}] saveParameters() (thorough: all;
+              quick: no leading change, and without a reload only the plain save): after a loadParameters() that has read the damaged file, every due save must leave the
+              complete current snapshot on disk and a restart must restore it.
   roundtrip   every datatype of the type catalogue (depth <= 3; quick / thorough catalogue) x every valid value, set by a
               client (wire form) and by the driver (native form) -> saved -> loaded by a fresh node.
 
@@ -63,6 +68,10 @@ Oracle calibration (weaker readings taken, see also the report to the lead):
   * Errors are injected into saving only (the quantifier says "of every save"): not into reading the file.
   * An out-of-range / wrong-kind stored member counts as unusable (the code's own comment: "ignore invalid persistent
     data (in case parameters have changed)"); the double tolerance of the reference model applies.
+  * File damage while the node runs: a save is only judged after a loadParameters() that returned, i.e. after the code
+    itself has read the damaged file (then the snapshot "last saved" is known not to be on disk and must not count as
+    saved).  Without such a reload the module cannot know; what it does then is recorded as an outcome, not judged.  An
+    exception out of loadParameters() on a damaged file is not judged either (the statement speaks of start-up).
   * A stored struct lacking optional members may be taken as it is or completed from the default value.
   * The key of a non-persistent parameter in the file must not prevent start-up; whether it is ignored is not judged.
 Crash model: process crash.  Power-loss reordering of unsynced pages is not modelled.
@@ -1021,12 +1030,14 @@ def shard_corrupt(shard):
 
 def reload_posts(tier):
     """what the running node does between the damage and its regular saveParameters(): [a value change] [loadParameters]
-    [a value change] save - every combination (the leading change only in the thorough tier)"""
+    [a value change] save - every combination (thorough); quick: no leading change, and without a reload only the plain save"""
     changes = [None, ['client', 'p', 1], ['driver', 'r', 0], ['driver', 'q', 0]]
     res = []
     for pre in (changes if tier != 'quick' else [None]):
         for load in (False, True):
             for post in changes:
+                if tier == 'quick' and not load and post:
+                    continue      # without a reload nothing is judged: quick keeps only the plain save as a control
                 res.append([st for st in (pre, ['load'] if load else None, post) if st] + [['save']])
     return res
 
@@ -1496,9 +1507,12 @@ def run(ctx):
         'on 5 initial disks.  [corrupt] every listed damage of a stored file x {plain, configured}.  [restart] module kinds x '
         'persistent flag {auto, on} x parameter shapes {writable, readonly} x {own write method, none} x run-1 configuration '
         '{nothing, everything} x every subset of the shapes configured at the restart x configured value {differs from, equals} '
-        'the stored one, observed at construction and after writeInitParams.  [roundtrip] type catalogue x '
+        'the stored one, observed at construction and after writeInitParams.  [reload] module kinds x every listed damage applied '
+        'to the file of a running node x {loadParameters, none} x value change {none, p by client, r by driver, q by driver} '
+        '(thorough: also a change before the reload) x saveParameters, judged after a reload that read the damage.  '
+        '[roundtrip] type catalogue x '
         'valid values x {client, driver}.  evaluations = crash cases (point x prefix) + injected errors + damaged files + round '
-        'trips + restarts; states = distinct (step, disk image) pairs / distinct damaged files / round-trip cases; distinct_nontrivial = '
+        'trips + restarts + damaged-while-running cases; states = distinct (step, disk image) pairs / distinct damaged files / round-trip cases; distinct_nontrivial = '
         'crash images that differ from every quiescent image of the fault-free run + injected errors + real damages + round trips '
         'that wrote the file; transitions = file-system operations executed by real code (dry runs, injected runs, recoveries)')
     ctx.coverage.update(
